@@ -85,6 +85,8 @@ class Context:
             path = write_replay(self.pid, f)
             print('VIOLATION property=%s replay=%s' % (self.pid, path))
             print('  rule=%s detail=%s' % (f['rule'], f['detail']))
+        for d in sorted({f['rule'] + ': ' + str(f['detail']) for f in drift})[:3]:
+            print('DRIFT (model and code differ; evidence, not a verdict): ' + d[:400])
         shown = set()
         for m in self.incon:
             key = m[-200:]
